@@ -32,8 +32,9 @@ def run(ctx):
                 ("C15_store", "bfs", None, 1)]
     # row-level algebra over rows whose segment sets differ (spec/RowAlgebra.tla): every pair of rows
     # over 3 shards x 1 column and 2 shards x 2 columns (a segment may be present and empty) x
-    # Union/Merge/Intersect/Difference/Xor, exhaustive in both tiers; 4 shards for the asymmetric ops
-    for cfg in (["C15_row_3x1", "C15_row_2x2"] + (["C15_row_4x1"] if thorough else [])):
+    # Union/Merge/Intersect/Difference/Xor, and every triple of 3x1 rows for the n-ary Union (u3),
+    # exhaustive in both tiers; 4 shards for the asymmetric ops
+    for cfg in (["C15_row_3x1", "C15_row_2x2", "C15_row_u3"] + (["C15_row_4x1"] if thorough else [])):
         r = ctx.generate("RowAlgebra", cfg, mode="bfs", timeout=900, workers=4)
         ctx.drive("bind/queryb", "TestC15Row", beh=r.behaviours, label="C15/" + cfg, timeout=1200)
     res = qcommon.generate_parallel(ctx, jobs)
